@@ -24,6 +24,7 @@ struct Merged {
     view: Option<Value>,
     codes: Vec<i64>,
     dropped: bool,
+    dropped_last: bool,
     runs: u64,
 }
 
@@ -32,6 +33,7 @@ fn merge_at(w: &crate::sim::World, peer: &Peer, start: &[u8], order: &[Rc<Vec<u8
     let mut prev = start.to_vec();
     let mut codes = vec![];
     let mut dropped = false;
+    let mut dropped_last = false;
     let mut runs = 0;
     for d in order {
         let mut input = w.input(peer);
@@ -43,11 +45,14 @@ fn merge_at(w: &crate::sim::World, peer: &Peer, start: &[u8], order: &[Rc<Vec<u8
         if super::taint::dropped_states(&o) > 0 {
             dropped = true;
         }
+        if super::taint::after_states_unconsumed(&o) > 0 {
+            dropped_last = true;
+        }
         // the host stores whatever comes back (on failure that is the previous data)
         prev = o.data;
     }
     let view = proj::decode(&prev).ok().map(|v| v.data);
-    Merged { data: prev, view, codes, dropped, runs }
+    Merged { data: prev, view, codes, dropped, dropped_last, runs }
 }
 
 /// states up to the identity of who sent a pending request
@@ -159,6 +164,7 @@ pub fn run(cfg: &Cfg) -> Report {
         let observer = w.observer.clone();
         let mut reference: Option<(Vec<usize>, Merged)> = None;
         let mut any_dropped = tainted_inputs;
+        let mut any_last = h.steps.iter().any(|s| super::taint::after_states_unconsumed(&s.out) > 0);
         let mut results: Vec<(String, Merged)> = vec![];
         for o in &orders {
             let seq: Vec<Rc<Vec<u8>>> = o.iter().map(|i| set[*i].clone()).collect();
@@ -166,6 +172,7 @@ pub fn run(cfg: &Cfg) -> Report {
             st.inc("merge_runs", m.runs);
             st.inc("orders_merged", 1);
             any_dropped |= m.dropped;
+            any_last |= m.dropped_last;
             results.push((format!("order {o:?} at the observer"), m));
         }
         // groupings: a subset is merged at a second observer first
@@ -177,6 +184,7 @@ pub fn run(cfg: &Cfg) -> Report {
             let (grp, rest) = idx.split_at(k);
             let g = merge_at(w, &second, &[], &grp.iter().map(|i| set[*i].clone()).collect::<Vec<_>>());
             any_dropped |= g.dropped;
+            any_last |= g.dropped_last;
             let mut seq: Vec<Rc<Vec<u8>>> = rest.iter().map(|i| set[*i].clone()).collect();
             let at = rng.below(seq.len() + 1);
             seq.insert(at, Rc::new(g.data.clone()));
@@ -184,9 +192,15 @@ pub fn run(cfg: &Cfg) -> Report {
             st.inc("merge_runs", g.runs + m.runs);
             st.inc("groupings_merged", 1);
             any_dropped |= m.dropped;
+            any_last |= m.dropped_last;
             results.push((format!("group {grp:?} merged first, delivered at position {at} among {rest:?}"), m));
         }
-        let suffix = if any_dropped { super::taint::SUFFIX } else { "" };
+        let last_script = super::taint::has_stateful_last_instruction_in_stream_fold(&w.air);
+        if last_script {
+            st.inc("histories_of_scripts_with_a_stateful_last_instruction_in_a_stream_fold", 1);
+        }
+        let last_tag = if any_last { super::taint::SUFFIX_LAST } else if last_script { super::taint::SUFFIX_LAST_SCRIPT } else { "" };
+        let suffix = format!("{}{}", if any_dropped { super::taint::SUFFIX } else { "" }, last_tag);
         let detail = |a: &str, b: &str| json!({"first": a, "second": b, "history": history_sample(c, 30)});
         for (label, m) in results {
             let Some(v) = &m.view else {
@@ -236,7 +250,7 @@ pub fn run(cfg: &Cfg) -> Report {
             st.inc("merge_runs", m.runs);
             st.inc("orders_merged_at_a_participant", 1);
             let dropped = any_dropped || m.dropped;
-            let suffix = if dropped { super::taint::SUFFIX } else { "" };
+            let suffix = format!("{}{}", if dropped { super::taint::SUFFIX } else { "" }, if any_last || m.dropped_last { super::taint::SUFFIX_LAST } else if last_script { super::taint::SUFFIX_LAST_SCRIPT } else { "" });
             let Some(v) = &m.view else { continue };
             match &base {
                 None => base = Some(m),
